@@ -167,11 +167,15 @@ fn rec_obs<K: EnrKey>(e: &Enr<K>) -> String {
     // absent key, Debug, into_iter, conversions: glue that must not panic
     let absent = e.get_raw_rlp(b"\xff\xfe absent").is_none() && e.get(b"\xff\xfe absent").is_none();
     let dbg = format!("{e:?}");
+    // the pretty form passes the alternate flag down to the fields: the node id must still be the plain 0x-hex
+    let dbgp = format!("{e:#?}");
+    let nid_dbg = format!("{:?}", e.node_id());
+    let dbgp_ok = dbgp.contains(&nid_dbg) && !dbgp.contains("0x0x") && dbg.contains(&nid_dbg);
     let into: Vec<(Vec<u8>, Bytes)> = e.clone().into_iter().collect();
     let same_iter = into.len() == e.iter().count()
         && into.iter().zip(e.iter()).all(|((k1, v1), (k2, v2))| k1 == k2 && v1.as_ref() == v2);
     let nid_conv = NodeId::from(e) == e.node_id() && NodeId::from(e.clone()) == e.node_id();
-    let _ = write!(o, " glue={}", (absent && !dbg.is_empty() && same_iter && nid_conv) as u8);
+    let _ = write!(o, " glue={}", (absent && !dbg.is_empty() && dbgp_ok && same_iter && nid_conv) as u8);
     o
 }
 
